@@ -34,3 +34,111 @@ def decode(v, shape):
 
 def exc_name(e):
     return type(e).__name__
+
+
+# ---------------------------------------------------------------------------------------------
+# WCS families
+# ---------------------------------------------------------------------------------------------
+def family_wcs(kind, nd):
+    """FITS WCS of a named family with nd pixel axes (pixel order = reverse array order)."""
+    from astropy.wcs import WCS
+    if kind == "lin":
+        return lin_wcs(nd)
+    w = WCS(naxis=nd)
+    if kind == "tan":          # coupled celestial pair on pixel axes 0,1 (+ WAVE, TIME)
+        ct = ['HPLN-TAN', 'HPLT-TAN', 'WAVE', 'TIME'][:nd]
+        cu = ['arcsec', 'arcsec', 'Angstrom', 's'][:nd]
+        cd = [5.0, 20.0, 0.25, 2.0][:nd]
+    elif kind == "tan_split":  # celestial pair on the first and last pixel axes
+        ct = (['HPLN-TAN', 'WAVE', 'TIME'][:nd - 1] + ['HPLT-TAN'])
+        cu = (['arcsec', 'Angstrom', 's'][:nd - 1] + ['arcsec'])
+        cd = ([5.0, 0.25, 2.0][:nd - 1] + [20.0])
+    elif kind == "rot":        # rotated PC coupling the first two (celestial) axes
+        ct = ['HPLN-TAN', 'HPLT-TAN', 'TIME', 'WAVE'][:nd]
+        cu = ['arcsec', 'arcsec', 's', 'Angstrom'][:nd]
+        cd = [0.5, 0.5, 3.0, 0.25][:nd]
+        pc = np.eye(nd)
+        pc[0, 0], pc[0, 1], pc[1, 0], pc[1, 1] = 0.8, -0.6, 0.6, 0.8
+        w.wcs.pc = pc
+    else:
+        raise ValueError(kind)
+    w.wcs.ctype, w.wcs.cunit, w.wcs.cdelt = ct, cu, cd
+    w.wcs.crpix = [2, 1, 1, 1][:nd]
+    w.wcs.crval = [0, 0, 10, 0][:nd] if kind != "tan_split" else ([0, 10, 0][:nd - 1] + [0])
+    w.wcs.dateref = "2020-01-01T00:00:00"
+    w.wcs.set()
+    return w
+
+
+FAMILIES = {1: ["lin"], 2: ["lin", "tan", "rot"], 3: ["lin", "tan", "tan_split", "rot"],
+            4: ["lin", "tan", "tan_split", "rot"]}
+
+
+def lin_offsets(low_level_wcs, nd):
+    """For a WCS derived from lin_wcs(nd) by slicing: per ARRAY axis (offset, dropped) as the sliced
+    WCS applies them.  Uses world = crval + cdelt*pix per axis (exact: dyadic parameters)."""
+    base = lin_wcs(nd)
+    crval, cdelt = list(base.wcs.crval), list(base.wcs.cdelt)
+    btypes = list(base.world_axis_physical_types)
+    res = {}
+    npix = low_level_wcs.pixel_n_dim
+    w0 = low_level_wcs.pixel_to_world_values(*([0] * npix))
+    w0 = [w0] if low_level_wcs.world_n_dim == 1 else list(w0)
+    for t, v in zip(low_level_wcs.world_axis_physical_types, w0):
+        k = btypes.index(t)
+        res[k] = (round((float(v) - crval[k]) / cdelt[k]), False)
+    dwd = getattr(low_level_wcs, "dropped_world_dimensions", None) or {}
+    for t, v in zip(dwd.get("world_axis_physical_types", []), dwd.get("value", [])):
+        k = btypes.index(t)
+        res[k] = (round((float(v) - crval[k]) / cdelt[k]), True)
+    # world axis k == pixel axis k == array axis nd-1-k
+    return [list(res[nd - 1 - a]) if (nd - 1 - a) in res else None for a in range(nd)]
+
+
+def wcs_lockstep_fail(orig, sliced, item):
+    """direct oracle: every surviving element reports, through the sliced cube's wcs, the world
+    coordinates it had in the original cube.  Returns '' or a description."""
+    shape = orig.data.shape
+    nd = len(shape)
+    item = tuple(item) + (slice(None),) * (nd - len(item))
+    starts, dropped = [], []
+    for n, it in zip(shape, item):
+        if isinstance(it, slice):
+            starts.append(it.indices(n)[0])
+            dropped.append(False)
+        else:
+            starts.append(it + n if it < 0 else it)
+            dropped.append(True)
+    sshape = sliced.data.shape
+    if int(np.prod(sshape)) == 0:
+        return ""
+    oll, sll = orig.wcs.low_level_wcs, sliced.wcs.low_level_wcs
+    if sll.pixel_n_dim != len(sshape):
+        return f"sliced wcs has {sll.pixel_n_dim} pixel axes for {len(sshape)} array axes"
+    if sll.array_shape is not None and tuple(sll.array_shape) != tuple(sshape):
+        return f"sliced wcs array_shape {sll.array_shape} != data shape {sshape}"
+    grid = np.indices(sshape)
+    spix = [grid[a] for a in range(len(sshape))][::-1]
+    opix_arr, g = [], 0
+    for a in range(nd):
+        if dropped[a]:
+            opix_arr.append(np.full(sshape, starts[a]))
+        else:
+            opix_arr.append(grid[g] + starts[a])
+            g += 1
+    opix = opix_arr[::-1]
+    ws = sll.pixel_to_world_values(*spix)
+    wo = oll.pixel_to_world_values(*opix)
+    ws = [ws] if sll.world_n_dim == 1 else list(ws)
+    wo = [wo] if oll.world_n_dim == 1 else list(wo)
+    corr = oll.axis_correlation_matrix
+    kept_pix = [nd - 1 - a for a in range(nd) if not dropped[a]]
+    keep_w = [w for w in range(oll.world_n_dim) if corr[w, kept_pix].any()]
+    if len(keep_w) != len(ws):
+        return f"sliced wcs has {len(ws)} world axes, expected {len(keep_w)}"
+    for j, w in enumerate(keep_w):
+        if not np.allclose(ws[j], wo[w], rtol=1e-9, atol=1e-9 * max(1.0, float(np.max(np.abs(wo[w]))))):
+            bad = np.argwhere(~np.isclose(ws[j], wo[w], rtol=1e-9, atol=1e-12))[0]
+            return (f"world axis {w}: element {tuple(int(x) for x in bad)} reports {float(ws[j][tuple(bad)])!r}, "
+                    f"the source element had {float(wo[w][tuple(bad)])!r}")
+    return ""
